@@ -227,8 +227,8 @@ grid ids `nextGrid + same index`. -/
 
 def subtreeList (s : St) (n : Nat) : List Nat := n :: iterC s (s.next + 1) true 1 (fun _ => true) n
 
-def copyTree (s : St) (n : Nat) : St :=
-  let L := subtreeList s n
+/-- the copy of the objects listed in `L` (root first) -/
+def copyWith (s : St) (L : List Nat) : St :=
   let base := s.next
   let gb := s.nextGrid
   let isNew := fun x => decide (base ≤ x) && decide (x < base + L.length)
@@ -257,6 +257,8 @@ def copyTree (s : St) (n : Nat) : St :=
     typ := fun x => if isNew x then s.typ (orig x) else s.typ x
     next := base + L.length
     nextGrid := gb + L.length }
+
+def copyTree (s : St) (n : Nat) : St := copyWith s (subtreeList s n)
 
 /-! ### the op alphabet of `inv_run` -/
 
